@@ -13,7 +13,10 @@
 //!   (cap)   unlock / decrypt with S2K parameters the library documents as refused returns Err
 //! BOUND(n) = BASE + MULT * n, n = octets actually supplied to the library (see the constants below).
 //! "documented extra": Argon2 controls (m KiB), AEAD chunk buffers (2 * declared chunk size, capped at 4 MiB by the format).
-//! usage: c19_bounded <N> [replay-case-hex]
+//! Families: 1 packet headers, 2 v6 unknown-algorithm key material counts, 3 signature areas / subpackets, 4 MPIs,
+//! 5 secret keys / SKESKs with hostile S2K, 6 user attribute / literal / compressed inner lengths, 7 armor, 8 cleartext
+//! framework, 9 hostile session key material and AEAD chunk sizes, 10 sweep of every one-octet S2K field.
+//! usage: c19_bounded <N> [replay-case-hex]   |   c19_bounded probe
 #![allow(clippy::too_many_arguments)]
 use pgp::armor::{Dearmor, DearmorOptions};
 use pgp::composed::{
@@ -828,9 +831,9 @@ fn s2k_cases(n: usize) -> Vec<S2kCase> {
     let salt8 = [1u8, 2, 3, 4, 5, 6, 7, 8];
     let salt16 = [9u8; 16];
     let mut v = vec![];
-    let mut hashes = vec![8u8, 2];
+    let mut hashes = vec![8u8];
     if n >= 2 {
-        hashes.extend([1, 10, 99]);
+        hashes.extend([2, 1, 10, 99]);
     }
     for h in hashes {
         let mut b = vec![3, h];
@@ -1470,6 +1473,144 @@ fn fam9(ctx: &mut Ctx, n: usize) {
 }
 
 // ------------------------------------------------------------------------------------------------------------
+// family 10: every value of each one-octet S2K field in turn (Argon2 t / p / encoded m, iterated count, hash ids)
+// through StringToKey::derive_key, SKESK v4 / v6 + decrypt_with_password, usage 253 / 254 secret key unlock
+// ------------------------------------------------------------------------------------------------------------
+struct Spec {
+    name: String,
+    bytes: Vec<u8>,
+    /// documented as refused (or not computable: unknown hash): every route must end in Err
+    refused: bool,
+    argon: bool,
+    extra: usize,
+    heavy: bool,
+    /// 2^encoded_m KiB for accepted Argon2 specifiers (to keep the quick bound short)
+    m_enc: u8,
+}
+
+fn sweep_specs() -> Vec<Spec> {
+    let salt8 = [1u8, 2, 3, 4, 5, 6, 7, 8];
+    let mut v = vec![];
+    let mut argon = |t: u8, p: u8, m: u8, salt: u8| {
+        // RFC 9580 3.7.1.4 / the library's documented caps: t, p in 1..=32, 3+ceil(log2 p) <= encoded m, m <= 2 GiB;
+        // the argon2 parameter rules (m >= 8 p KiB) refuse encoded m < 3 + ceil(log2 p)
+        let min_m = 3 + (p.max(1) as f32).log2().ceil() as u8;
+        let refused = t == 0 || p == 0 || t > 32 || p > 32 || m < min_m || m > 21;
+        let mut b = vec![4];
+        b.extend_from_slice(&[salt; 16]);
+        b.extend_from_slice(&[t, p, m]);
+        let extra = if refused { 0 } else { 2usize << (m as usize + 10) };
+        v.push(Spec { name: format!("Argon2 t={t} p={p} encoded_m={m}{}", if refused { " (refused)" } else { "" }), bytes: b, refused, argon: true, extra, heavy: false, m_enc: m });
+    };
+    for x in 0..=255u8 {
+        argon(x, 1, 10, 9);
+    }
+    for x in 0..=255u8 {
+        argon(1, x, 10, 9);
+    }
+    for x in 0..=255u8 {
+        // accepted and expensive (encoded m 17..=21: 128 MiB .. 2 GiB) is left out
+        if (17..=21).contains(&x) {
+            continue;
+        }
+        argon(1, 1, x, 9);
+    }
+    argon(0, 0, 0, 0);
+    for count in [0u8, 255] {
+        for h in [8u8, 0, 255] {
+            let mut b = vec![3, h];
+            b.extend_from_slice(&salt8);
+            b.push(count);
+            v.push(Spec { name: format!("iterated+salted hash id {h} count octet {count}"), bytes: b, refused: h != 8, argon: false, extra: 0, heavy: count == 255 && h == 8, m_enc: 0 });
+        }
+    }
+    for h in [0u8, 255, 8] {
+        let mut b = vec![1, h];
+        b.extend_from_slice(&salt8);
+        v.push(Spec { name: format!("salted hash id {h}"), bytes: b, refused: h != 8, argon: false, extra: 0, heavy: false, m_enc: 0 });
+        v.push(Spec { name: format!("simple hash id {h}"), bytes: vec![0, h], refused: h != 8, argon: false, extra: 0, heavy: false, m_enc: 0 });
+    }
+    v
+}
+
+fn fam10(ctx: &mut Ctx, n: usize, pub_v4: &[u8], pub_v6: &[u8]) {
+    let pw = Password::from("password");
+    let ct = filler(77, 52);
+    for sc in sweep_specs() {
+        let guard = if sc.heavy { TIME_GUARD_KDF_MS } else { TIME_GUARD_MS };
+        // (a) StringToKey::derive_key directly
+        ctx.case(10, &|| format!("StringToKey::try_from_reader + derive_key(password, 32): {}; specifier {}", sc.name, hexs(&sc.bytes)), sc.bytes.len(), sc.extra, guard, &mut || {
+            let (outcome, violation) = match pgp::types::StringToKey::try_from_reader(&sc.bytes[..]) {
+                Err(e) => (format!("parse Err: {}", short(&e.to_string())), None),
+                Ok(s2k) => match s2k.derive_key(b"password", 32) {
+                    Ok(k) => (format!("derive_key Ok ({} octets)", k.len()), if sc.refused { Some("(cap) derive_key succeeded with parameters documented as refused".to_string()) } else { None }),
+                    Err(e) => (format!("derive_key Err: {}", short(&e.to_string())), if sc.refused { None } else { Some(format!("(cap) derive_key refused allowed parameters: {}", short(&e.to_string()))) }),
+                },
+            };
+            Extra { outcome, violation, ..Default::default() }
+        });
+        // the packet routes repeat the same derivation: at scale 1 the larger accepted memory sizes and the
+        // 65 MB iteration (already run through these routes in family 5) go through derive_key only
+        if (n < 2 && !sc.refused && sc.m_enc > 12) || sc.heavy {
+            continue;
+        }
+        // (b) SKESK v4 / v6 + SEIPD, decrypt_with_password
+        for ver in [4u8, 6] {
+            let mut b = vec![ver];
+            let mut input;
+            if ver == 4 {
+                b.push(7);
+                b.extend_from_slice(&sc.bytes);
+                b.extend(filler(3, 17));
+                input = pkt(3, &b);
+                let mut s = vec![1u8];
+                s.extend(filler(4, 40));
+                input.extend(pkt(18, &s));
+            } else {
+                b.extend([(3 + sc.bytes.len() + 15) as u8, 7, 2, sc.bytes.len() as u8]);
+                b.extend_from_slice(&sc.bytes);
+                b.extend(filler(3, 15 + 32));
+                input = pkt(3, &b);
+                let mut s = vec![2u8, 7, 2, 0];
+                s.extend(filler(4, 32 + 48));
+                input.extend(pkt(18, &s));
+            }
+            let refused = sc.refused;
+            ctx.case(10, &|| format!("v{ver} SKESK with {} + SEIPD, Message::decrypt_with_password; input {}", sc.name, hexs(&input)), input.len(), sc.extra, guard, &mut || {
+                let outcome = match Message::from_bytes(&input[..]) {
+                    Err(e) => format!("from_bytes Err: {}", short(&e.to_string())),
+                    Ok(m) => match m.decrypt_with_password(&pw) {
+                        Err(e) => format!("decrypt_with_password Err: {}", short(&e.to_string())),
+                        Ok(m) => drain_message(m),
+                    },
+                };
+                let violation = if refused && outcome.contains("to the end") { Some("(cap) a message was decrypted with S2K parameters documented as refused".to_string()) } else { None };
+                Extra { outcome, violation, ..Default::default() }
+            });
+        }
+        // (c) secret key packets: usage 253 (v4, v6) and 254 (v4), unlock with a password
+        for (v6, usage) in [(false, 253u8), (true, 253), (false, 254)] {
+            let nonce_len = if usage == 253 { 15 } else { 16 };
+            let mut f = vec![];
+            match (usage, v6) {
+                (253, false) => f.extend([253, 9, 2]),
+                (253, true) => f.extend([253, (3 + sc.bytes.len() + nonce_len) as u8, 9, 2, sc.bytes.len() as u8]),
+                _ => f.extend([usage, 9]),
+            }
+            f.extend_from_slice(&sc.bytes);
+            f.extend(filler(5, nonce_len));
+            f.extend_from_slice(&ct);
+            let mut body = if v6 { pub_v6.to_vec() } else { pub_v4.to_vec() };
+            body.extend_from_slice(&f);
+            let input = pkt(5, &body);
+            let refused = sc.refused || (sc.argon && usage != 253);
+            let extra = if refused { 0 } else { sc.extra };
+            ctx.case(10, &|| format!("unlock with a password: {} secret key, S2K usage {usage}, {}; input {}", if v6 { "v6" } else { "v4" }, sc.name, hexs(&input)), input.len(), extra, guard, &mut || unlock_run(&input, &pw, refused));
+        }
+    }
+}
+
+// ------------------------------------------------------------------------------------------------------------
 fn gen_primary(seed: u64, typ: KeyType, version: KeyVersion) -> SignedSecretKey {
     let mut rng = ChaCha20Rng::seed_from_u64(seed);
     SecretKeyParamsBuilder::default()
@@ -1567,6 +1708,9 @@ fn main() {
     }
     if want(9) {
         fam9(&mut ctx, n);
+    }
+    if want(10) {
+        fam10(&mut ctx, n, &pub_v4, &pub_v6);
     }
     if ctx.stats {
         for (f, w) in ctx.fam_worst.iter().enumerate() {
